@@ -326,6 +326,10 @@ func cmdCheck(args []string) int {
 			broken = true
 		}
 	}
+	for _, e := range prog.specErrors {
+		fmt.Fprintf(os.Stderr, "BROKEN: %s\n", e)
+		broken = true
+	}
 	if total == 0 && len(violations) == 0 {
 		fmt.Fprintf(os.Stderr, "BROKEN: zero obligations generated for %s\n", *prop)
 		broken = true
